@@ -21,7 +21,7 @@ PROFILE = scenario.profile(
     maxD=3, noise_modes=("none",), extra_budget=(0, 70),
     target_kinds=("quad", "quad", "l1", "maxn", "plateau", "plateau", "rosen", "linear"),
     c_classes=("inside", "inside", "hardbox", "on_bound", "outside", "far", "at_x0", "at_x0"),
-    cons_x0=("margin",),
+    cons_x0=("margin",), p_warm=0.1,
     # stobads=True keeps the default policy for deterministic targets (the code switches it off once the target is
     # found to be deterministic), so it is inside the statement's domain
     extra_opts=(("stobads", (True,), 0.15), ("noise_size", (0.5, 1.0), 0.15)),
